@@ -329,4 +329,50 @@ def run(p, report, tier):
                         if "ensure_min_samples" in miss else ""))
     from .c13_fit import check_store_on_every_path
     check_store_on_every_path(p, report, [(enc, enc.methods["fit"])], rule="R16.7")
+    # ---------------- round 6: who may write the encoder's state
+    report.rule("R16.10", "the encoding is fixed by fit: transform / inverse_transform (and everything they call on self) "
+                "never store to, or re-fit, an attribute of the encoder - a decode dtype or class table re-derived from the "
+                "array encoded LAST makes inverse_transform(transform(y1)) depend on calls made in between", floor=2)
+    writers = {"__init__", "fit", "set_params", "__setstate__"}
+
+    def _self_writes(f, seen):
+        out = []
+        for n in ast.walk(f.node):
+            tg = []
+            if isinstance(n, ast.Assign):
+                tg = n.targets
+            elif isinstance(n, (ast.AugAssign, ast.AnnAssign)):
+                tg = [n.target]
+            for t in tg:
+                for x in (t.elts if isinstance(t, (ast.Tuple, ast.List)) else [t]):
+                    b = x
+                    while isinstance(b, ast.Subscript):
+                        b = b.value
+                    if isinstance(b, ast.Attribute) and isinstance(b.value, ast.Name) and b.value.id == "self":
+                        out.append((n, f"`{norm_stmt(n, 60)}` stores self.{b.attr}"))
+            if isinstance(n, ast.Call):
+                fn = n.func
+                if isinstance(fn, ast.Name) and fn.id == "setattr" and n.args and isinstance(n.args[0], ast.Name) and n.args[0].id == "self":
+                    out.append((n, "setattr(self, ...)"))
+                if isinstance(fn, ast.Attribute) and fn.attr in ("fit", "partial_fit", "set_params") \
+                        and isinstance(fn.value, ast.Attribute) and isinstance(fn.value.value, ast.Name) and fn.value.value.id == "self":
+                    out.append((n, f"`{ast.unparse(fn)}(...)` re-fits self.{fn.value.attr}"))
+                if isinstance(fn, ast.Attribute) and isinstance(fn.value, ast.Name) and fn.value.id == "self" \
+                        and fn.attr not in seen:
+                    g = enc.methods.get(fn.attr)
+                    if g is not None:
+                        if fn.attr in writers:
+                            out.append((n, f"calls self.{fn.attr}()"))
+                        else:
+                            out += _self_writes(g, seen | {fn.attr})
+        return out
+
+    for mn, f in sorted(enc.methods.items()):
+        if mn in writers or mn.startswith("__") or mn == "fit_transform":
+            continue
+        w = _self_writes(f, {mn})
+        report.add("R16.10", f.qual, "leaves the fitted state of the encoder alone", f"{f.file}:{(w[0][0] if w else f.node).lineno}",
+                   not w, detail="no store to self, no re-fit" if not w else
+                   f"{w[0][1]}: what a later inverse_transform / transform returns for an array encoded EARLIER now depends "
+                   f"on this call (labels decoded into the dtype / class table of another array)")
     report.assumptions += ["numpy casting rules, the round trip and dtype behaviour as values are not decided"]
